@@ -36,7 +36,7 @@ FAULT_KINDS = TRANSIENT + LENIENT + CORRUPT
 CRASH_SITES = ("net.before", "open-w:tmp.archive", "write:tmp.archive", "close:tmp.archive", "open-r:tmp.archive",
                "open-w:tmp.pickle", "write:tmp.pickle", "write.mid:tmp.pickle", "close", "rename", "open-r:slot",
                "remove", "rmdir", "scandir", "stat:slot", "mkdir", "sleep", "rmtree", "open-fd")
-WRITE_CLASS = ("rename", "open-w", "write", "close", "flush", "remove", "rmdir", "mkdir", "truncate", "link", "symlink",
+WRITE_CLASS = ("rename", "open-w", "write", "fdwrite", "close", "flush", "remove", "rmdir", "mkdir", "truncate", "link", "symlink",
                "copyfile", "move", "copytree", "CRASH")
 STEP_CAP = 4000
 CALM_STEP_BUDGET = 200
@@ -561,7 +561,7 @@ class Run:
         """P1: what would a later, offline load of `ds` see right now?  True = complete genuine copy,
         False = absent.  Anything else is a violation."""
         path = self.slot_path(ds)
-        exists = K.REAL["stat"] and os.path.lexists(path)
+        exists = os.path.lexists(path)
         RemoteFileMetadata = self.base.RemoteFileMetadata
         remote = RemoteFileMetadata(filename=ds.remote_filename, url=ds.url, checksum=ds.pinned)
         kw = {"download_if_missing": False}
@@ -569,11 +569,21 @@ class Run:
             kw["data_home"] = self.alt_home
         if ds.gzip:
             kw["gzip"] = True
+        self.sim.probe_active = True
         try:
             with warnings.catch_warnings():
                 warnings.simplefilter("ignore")
                 value = self.base.load_csv_dataset_from_remote(remote=remote, dataset_filename=ds.slot,
                                                                dataset_folder=ds.folder, **kw)
+        except K.NetworkTouched:
+            self.sim.probe_active = False
+            if exists:
+                self.fail("P6/network-used-on-cache-hit", f"dataset={ds.name}",
+                          f"step {self.sim.step}: an offline load (download_if_missing=False) of the cached {ds.name} "
+                          f"went to the network")
+            self.fail("P4/download-although-forbidden", f"dataset={ds.name}",
+                      f"step {self.sim.step}: a load of {ds.name} with download_if_missing=False and no cache entry "
+                      f"went to the network instead of raising OSError")
         except OSError as e:
             if exists:
                 self.fail("P1/cache-entry-unusable", f"dataset={ds.name}",
@@ -588,6 +598,8 @@ class Run:
             self.fail("P1/cache-entry-corrupt", f"dataset={ds.name}",
                       f"step {self.sim.step}: cache entry {ds.folder}/{ds.slot} ({size} bytes) is not a complete copy: "
                       f"an offline load raises {type(e).__name__}: {e}")
+        finally:
+            self.sim.probe_active = False
         if not self.matches(value, ds, False):
             who = self.whose(value)
             if who is not None:
